@@ -19,8 +19,8 @@ SANDWICH = "TLC enumerates every terminal state of LoomSem (reference semantics,
 TRUST = "Trusted: LoomSem as the documented semantics (std + loom docs, DESIGN.md App. B), the DSL interpreter's logging discipline, TLC. Open findings are listed in known_findings.json; generated programs avoid their triggers (quarantine) or waive the affected comparison, directed shapes re-confirm them."
 for _pid, _tech, _fam, _ref in [
     ("C01", "TLC full interleaving enumeration of LoomSem vs. outcome set of real loom::model; trace validation (LoomSemTrace); Dpor.tla (Execution::schedule as a spec): TLC checks Complete over whole program spaces, predicted schedule sets compared with the real runs", "SyncMix (every mix of object kinds, SeqCst atomics) + Dpor program spaces (all programs of 2-3 spawned threads x 1-2 blocks over loads, stores, mutex sections)", "C01"),
-    ("C04", "TLC reachability of Race in LoomSem (vector-clock happens-before) vs. loom's causality panic; trace validation of the failing iteration's state", "RaceIdioms (each synchronisation idiom, correct and broken) + random", "C04"),
-    ("C05", "TLC reachability of Deadlock in LoomSem vs. loom's deadlock panic; trace validation pins the report to a deadlocked spec state", "Blocking (lock inversions, lost wake-ups, park tokens, channels)", "C05"),
+    ("C04", "TLC reachability of Race in LoomSem (vector-clock happens-before) vs. loom's causality panic; trace validation of the failing iteration's state", "RaceIdioms (each synchronisation idiom, correct and broken; UnsafeCell with/with_mut, pointers held across operations, the loom::cell::Cell API, Atomic::with_mut/unsync_load) + random", "C04"),
+    ("C05", "TLC reachability of Deadlock in LoomSem vs. loom's deadlock panic; trace validation pins the report to a deadlocked spec state; TLC on Dpor.tla (who is blocked / woken by each acquisition) with the invariants Complete and Sound over nested two-mutex spaces, try_lock included", "Blocking (lock inversions, lost wake-ups, park tokens, channels, holders that wait for a try_lock-er)", "C05"),
     ("C07", "trace validation against LoomSem's lock machine (owner/readers, try_* both directions, hand-over views) + outcome-set sandwich", "Locks (2 mutexes, rwlock, nested/overlapping sections, protected cells)", "C07"),
     ("C08", "trace validation against LoomSem's wait/notify machine (condvar 3-step wait, Notify flag + one spurious return, park token, join) + outcome/deadlock sandwich", "WaitNotify", "C08"),
     ("C09", "trace validation against LoomSem's FIFO channel + outcome-set sandwich + leak/deadlock kinds", "Chan (1-3 senders, recv/try_recv, receiver drop)", "C09"),
